@@ -87,8 +87,14 @@ class Unit:
             self.need[p] = (["x", "y"] if (dim >= 2 and p not in self.newz) else []) + (["z"] if dim in (1, 3) else [])
         self._rows = None
 
+    frame = ("ne", "left-handed")       # axes-xy, angles of the input file (see to_frame)
+    idrev = False                        # new points renamed so that their ids sort before the known ones
+
     def key(self):
-        return self.name + "@" + ";".join("%s=%d,%d,%d" % (p[0], p[1][0], p[1][1], p[1][2]) for p in self.points)
+        tag = ""
+        if self.frame != ("ne", "left-handed"): tag += "[%s/%s]" % (self.frame[0], self.frame[1][0])
+        if self.idrev: tag += "[idrev]"
+        return self.name + tag + "@" + ";".join("%s=%d,%d,%d" % (p[0], p[1][0], p[1][1], p[1][2]) for p in self.points)
 
     # ---- reference Jacobian rows of every candidate (computed once)
     def rows(self):
@@ -514,6 +520,52 @@ def station_order(unit, mask):
     return st
 
 
+# ---------------------------------------------------------------- coordinate frames
+# The unit lives in the world frame of gnet's reference functions: x = north, y = east,
+# bearings / directions / angles / azimuths clockwise.  doc/gama-local-input.texi
+# ("Network definition"): axes-xy="ab": axis x points to a, axis y to b (n, e, s, w);
+# angles="right-handed": directions, angles (and azimuths) are counted counterclockwise.
+UVEC = {"n": (0, 1), "s": (0, -1), "e": (1, 0), "w": (-1, 0)}      # (east, north) components
+AXES = ["ne", "sw", "es", "wn", "en", "nw", "se", "ws"]            # first four left-handed
+SENSES = ["left-handed", "right-handed"]
+FRAMES = [(a, s) for a in AXES for s in SENSES]
+
+
+def fxy(frame, X, Y):
+    """world (X north, Y east) -> file (x, y) of the frame; linear, no translation"""
+    ux, uy = UVEC[frame[0][0]], UVEC[frame[0][1]]
+    return (ux[0] * Y + ux[1] * X, uy[0] * Y + uy[1] * X)
+
+
+def to_frame(net, frame):
+    """rewrite a filled world-frame Net into the frame (coordinates, approximate
+    offsets, vectors, observed coordinates, sense of the horizontal angles)"""
+    if frame == ("ne", "left-handed"): return net
+    rh = frame[1] == "right-handed"
+    for p in net.points:
+        if p.x is not None: p.x, p.y = fxy(frame, p.x, p.y)
+        if isinstance(p.ax, tuple): p.ax = fxy(frame, p.ax[0], p.ax[1])
+    for c in net.clusters:
+        for o in c.obs:
+            if o.kind in ("direction", "angle", "azimuth") and rh:
+                o.val = (400.0 - o.val) % 400.0
+            elif o.kind == "vec":
+                dx, dy = fxy(frame, o.val[0], o.val[1]); o.val = (dx, dy, o.val[2])
+            elif o.kind == "coord" and "x" in o.comps:
+                x, y = fxy(frame, o.val[0], o.val[1]); o.val = (x, y) + tuple(o.val[2:])
+    net.attrs = {"axes-xy": frame[0], "angles": frame[1]}
+    return net
+
+
+def truth_in_frame(unit):
+    out = {}
+    for p in unit.new:
+        X, Y, Z = unit.C[p]
+        x, y = fxy(unit.frame, X, Y)
+        out[p] = (x, y, Z)
+    return out
+
+
 def group_orders(unit, mask):
     """all orders of the cluster groups present in the state: the station
     clusters (one block, stations in order of first appearance), the
@@ -571,7 +623,7 @@ def build_net(unit, mask, variant, zrot, order=0):
     net = Net(pts, clusters, **PARAMS)
     net.description = "C06 %s mask=%d" % (unit.key(), mask)
     gnet.fill_values(net)
-    return net
+    return to_frame(net, unit.frame)
 
 
 def has_directions(unit, mask):
